@@ -23,6 +23,10 @@ def staged(stages, start, qs):
 
 def corpus():
     return [
+        "parserate 3031302f73",   # C10k: the targets of a ramp are read with ParseRate: a leading zero is decimal
+        "parserate 303130302f73",
+        "parserate 30382f73",
+        "parserate 315f3030302f73",
         staged([(10 * S, 10), (0, 50), (10 * S, 50)], None, [0, 1, 5 * S, 10 * S - 1, 10 * S, 15 * S, 19 * S, 20 * S - 1, 20 * S, 25 * S]),
         staged([(0, 0), (5 * S, 100), (5 * S, 0)], None, [0, S, 5 * S - 1, 5 * S, 7 * S, 10 * S - 1, 10 * S]),
         staged([(3 * S, 7)], 0, [0, S, 2 * S, 3 * S - 1, 3 * S, 4 * S]),
